@@ -3,95 +3,9 @@
 import math
 from engine import Prop, fbits, bitsf, err_kind
 
-# ------------------------------------------------------------------------------------------
-# independent oracle: textbook WGS84 (a, f), nothing taken from tracklib
-# ------------------------------------------------------------------------------------------
-A = 6378137.0
-F = 1.0 / 298.257223563
-E2 = F * (2.0 - F)
-
-TOL_DEG = 1e-9      # the property's bounds
-TOL_M = 1e-3
-
-
-def o_g2e(g):
-    """geodetic (deg, deg, m) -> ECEF, closed-form WGS84"""
-    lon, lat, h = math.radians(g[0]), math.radians(g[1]), g[2]
-    s, c = math.sin(lat), math.cos(lat)
-    N = A / math.sqrt(1.0 - E2 * s * s)
-    return [(N + h) * c * math.cos(lon), (N + h) * c * math.sin(lon), (N * (1.0 - E2) + h) * s]
-
-
-def o_e2g(p):
-    """ECEF -> geodetic by the classical latitude iteration run to convergence (not Bowring's closed form)"""
-    X, Y, Z = p
-    lon = math.atan2(Y, X)
-    r = math.hypot(X, Y)
-    lat = math.atan2(Z, r * (1.0 - E2))
-    h = 0.0
-    for _ in range(30):
-        s = math.sin(lat)
-        N = A / math.sqrt(1.0 - E2 * s * s)
-        # numerically stable height whatever the latitude
-        h = r * math.cos(lat) + Z * s - A * A / N
-        new = math.atan2(Z, r * (1.0 - E2 * N / (N + h)))
-        if abs(new - lat) < 1e-17:
-            lat = new
-            break
-        lat = new
-    return [math.degrees(lon), math.degrees(lat), h]
-
-
-def dlon(a, b):
-    d = (a - b) % 360.0
-    return min(d, 360.0 - d)
-
-
-def geo_diff(a, b):
-    """None if two geodetic positions agree within the property's bounds, else text"""
-    if not all(math.isfinite(v) for v in a):
-        return "non-finite %s" % (a,)
-    if dlon(a[0], b[0]) > TOL_DEG or abs(a[1] - b[1]) > TOL_DEG:
-        return "angles differ by (%.3g, %.3g) deg" % (dlon(a[0], b[0]), abs(a[1] - b[1]))
-    if abs(a[2] - b[2]) > TOL_M:
-        return "height differs by %.3g m" % abs(a[2] - b[2])
-    return None
-
-
-def m_diff(a, b):
-    if not all(math.isfinite(v) for v in a):
-        return "non-finite %s" % (a,)
-    d = math.sqrt(sum((x - y) ** 2 for x, y in zip(a, b)))
-    return None if d <= TOL_M else "differs by %.3g m" % d
-
-
-def base_geo(b):
-    """true geodetic position of a base token ["G"|"E", x, y, z]"""
-    return list(b[1:]) if b[0] == "G" else o_e2g(b[1:])
-
-
-def close_geo(a, b):   # correspondence tolerance (model vs implementation)
-    return all(_c(x, y, 1e-10) for x, y in zip(a[:2], b[:2])) and _cm(a[2], b[2])
-
-
-def _c(x, y, tol):
-    if x != x or y != y:
-        return x != x and y != y
-    if math.isinf(x) or math.isinf(y):
-        return x == y
-    return abs(x - y) <= tol
-
-
-def _cm(x, y):
-    if x != x or y != y:
-        return x != x and y != y
-    if math.isinf(x) or math.isinf(y):
-        return x == y
-    return abs(x - y) <= 1e-9 * max(1.0, abs(x), abs(y))
-
-
-def close_m(a, b):
-    return all(_cm(x, y) for x, y in zip(a, b))
+from props.geo14 import (A, F, E2, TOL_DEG, TOL_M, o_g2e, o_e2g, dlon, geo_diff, m_diff, base_geo, close_geo, close_m,
+                         _c, _cm)
+from props import c14hist as H
 
 
 PT_FIELDS = [("ecef", "m"), ("geo2", "g"), ("enu", "m"), ("geo3", "g"), ("enuE", "m"), ("ecef2", "m"),
@@ -307,6 +221,8 @@ class P(Prop):
             out.append({"kind": "l93", "p": self.rand_france(rng)})
         for _ in range(700 if quick else 9000):
             out.append(self.rand_track(rng))
+        for _ in range(1500 if quick else 20000):
+            out.append(H.rand_hist(self, rng))
         return out
 
     # ---- tracks
@@ -413,6 +329,9 @@ class P(Prop):
             t["ops"] = ">".join(n + ("" if a is None else "(" + a[0] + ")") for n, a in case["ops"])
             t["legal"] = all(s[0] == "ok" for s in sim(case))
             t["n"] = len(case["pts"])
+        if k == "hist":
+            t.update(H.features(case))
+            t["n_ops"] = min(len(case["ops"]), 16)
         return t
 
     def nontrivial(self, case):
@@ -421,6 +340,9 @@ class P(Prop):
         if case["kind"] == "track":
             s = sim(case)
             return bool(s) and s[0][0] == "ok"
+        if case["kind"] == "hist":
+            return any(op[0] in ("call", "tc") for op in case["ops"][:-1]) or (
+                bool(case["ops"]) and case["ops"][-1][0] in ("call", "tc") and not H.static(case).dead)
         return True
 
     # ---------------------------------------------------------------- implementation
@@ -476,6 +398,8 @@ class P(Prop):
                     err = err_kind(e)
                     break
             return {"states": states, "err": err}
+        if k == "hist":
+            return H.Runner(oc, self.Obs, self.Track, self.ObsTime).run(case)
         raise ValueError(k)
 
     def state(self, tr):
@@ -515,12 +439,16 @@ class P(Prop):
             pts = ";".join(",".join(fbits(v) for v in p) for p in case["pts"]) or "_"
             ops = " ".join("%s:%s" % (n, self.tok_barg(a)) for n, a in case["ops"])
             return ["C14.track %s %s %s %s" % (case["srid"], pts, self.tok_barg(case["base0"]), ops)]
+        if k == "hist":
+            return [H.request(case)]
 
     def decode(self, case, replies):
         k = case["kind"]
         r = replies[0]
         if r == "bad-request":
             raise ValueError("driver: bad-request")
+        if k == "hist":
+            return H.decode(r)
         if k == "pt":
             v = [bitsf(t) for t in r.split()]
             assert len(v) == 27
@@ -550,6 +478,10 @@ class P(Prop):
 
     def compare(self, case, impl_out, model_out):
         k = case["kind"]
+        if k == "hist":
+            if "steps" not in impl_out:
+                return "implementation raised %s (%s)" % (impl_out.get("err"), impl_out.get("detail"))
+            return H.compare(case, impl_out, model_out)
         if "states" not in impl_out and "err" in impl_out:
             return "implementation raised %s (%s); model=%s" % (impl_out["err"], impl_out.get("detail"), str(model_out)[:200])
         if k == "pt":
@@ -584,6 +516,8 @@ class P(Prop):
     # ---------------------------------------------------------------- oracle (transfer)
     def spec(self, case, out):
         k = case["kind"]
+        if k == "hist":
+            return H.spec(case, out)
         if "states" not in out and "err" in out:
             return "conversion raised %s: %s" % (out["err"], out.get("detail"))
         if k == "pt":
@@ -713,6 +647,8 @@ class P(Prop):
     # ---------------------------------------------------------------- shrinking / search
     def shrink(self, case):
         k = case["kind"]
+        if k == "hist":
+            yield from H.shrink(case)
         if k == "pt":
             p = case["p"]
             if case["b2"] != case["b"]:
@@ -757,6 +693,9 @@ class P(Prop):
         elif k == "l93":
             for _ in range(6):
                 yield {"kind": "l93", "p": self.rand_france(rng)}
+        elif k == "hist":
+            for _ in range(6):
+                yield H.rand_hist(self, rng)
         else:
             for _ in range(6):
                 yield self.rand_track(rng)
